@@ -7,6 +7,10 @@
     `parse_hit_objects` accepts it in whatever decoder state and yields a slider: the state grows by exactly one slider.
   * `hitobject_lines_accepted`: the same statement over circles, sliders, spinners and hold notes
     (`hitobject_lines_accepted_partial` of Props/C04.lean is kept; this theorem contains it).
+  Findings named by the hypotheses: **F20** — `RepSlider.distRep` (written length within ±131072) is forced by the decoder's
+  limit on the length field and is violated by the real encoder for a slider without a length whose computed curve is
+  longer than 131072 (the line it writes is rejected); **F17** — outside `RepPath` (a repeated point at a segment start
+  does not make the line rejected, it changes the control points read back: C02).
   Still only a statement: that every object of a *decoded* map is representable (outside the findings), timing-point
   lines, and hence `list_block_lines_accepted_statement` of Props/C04.lean.
 -/
